@@ -374,6 +374,18 @@ class SeriesOps:
         a0 = pos[0] if pos else None
         if name.startswith("builtins."):
             return self.builtin(short, pos, kw, node)
+        if name in ("functools.reduce", "reduce") and len(pos) in (2, 3) and isinstance(a0, (FuncRef, Obj)) and I._concrete_seq(pos[1]) is not None and not kw:
+            # functools.reduce(f, xs[, init]) over a concrete sequence: the left fold
+            seq = list(I._concrete_seq(pos[1]))
+            if len(pos) == 3:
+                acc = pos[2]
+            elif seq:
+                acc, seq = seq[0], seq[1:]
+            else:
+                return T.opaque("reduce of an empty sequence")
+            for x in seq:
+                acc = M.invoke(a0, [acc, x], {}, node, "reduce-callee")
+            return acc
         if name == "pd.concat":
             frames = a0 if isinstance(a0, list) else (a0.items if isinstance(a0, PyTuple) else [Each(a0)] if not isinstance(a0, Frame) else [a0])
             if isinstance(a0, tuple) and a0 and a0[0] == "comp":
